@@ -77,6 +77,10 @@ def extra(rep, impl_exe, model_exe, rng, tier):
                          "why": why, "reader": readings[i][:200], "replay": "echo 'ecx %s' | %s" % (j[:300], impl_exe)})
             break
     rep.cov["checked_by_reader"] = stats
+    if not viol:
+        # the level a symbol declares must not depend on what was encoded before
+        import held
+        viol += held.qr_adversarial_phase(rep, impl_exe, rng, tier, held.run_fresh_each)
     return viol
 
 
